@@ -1,2 +1,80 @@
+(* C19 — Packed-refs lookup equals a linear scan.
+   Only statements here; every proof is [exact <lemma of Proofs*.v>].
+   Model: Model.v (gix-ref packed::{decode,find,iter,buffer}, core::slice::binary_search_by).
+   Vocabulary (Spec.v): [frec] = a record plus the line endings (LF/CRLF) of its one or two lines;
+   [ser_file xs] = the text of those records; [wf_file] = every target/peeled id is 40 lower-case
+   hex digits and every name passes gix_validate::reference::name; [find_first] = the linear scan;
+   [line_start a s] = s is 0 or follows an LF. *)
+From Coq Require Import Sorting.Sorted.
 From GixV.Base Require Import Bytes BytesFacts Outcome.
-From GixV.C19 Require Import Model.
+From GixV.C19 Require Import Model Spec ProofsSearch ProofsParse ProofsLocate ProofsMain.
+
+(* core::slice::binary_search_by, for any probe function that is monotone (all Less, then all Equal, then all Greater)
+   over the indices and whose side flag never fires: it reports a hit exactly when some index
+   probes Equal, and the hit is such an index *)
+Theorem binsearch_monotone_key : forall (f : nat -> comparison * bool) (n : nat),
+  (forall i j, (i <= j < n)%nat -> fst (f i) = Gt -> fst (f j) = Gt) ->
+  (forall i j, (i <= j < n)%nat -> fst (f i) = Eq -> fst (f j) <> Lt) ->
+  (forall i, (i < n)%nat -> snd (f i) = false) ->
+  exists r, slice_binary_search n f = Ok (r, false) /\
+    match r with
+    | Found p => (p < n)%nat /\ fst (f p) = Eq
+    | Missing _ => forall i, (i < n)%nat -> fst (f i) <> Eq
+    end.
+Proof. exact slice_binary_search_complete. Qed.
+
+(* every byte offset of a well-formed text (LF or CRLF, with or without peeled lines) is mapped by
+   search_start_of_record to the first byte of the record containing it, where the decoder reads
+   exactly that record; so the key seen by the binary search is that record's name *)
+Theorem record_key_at_every_offset : forall xs name ofs, wf_file xs -> (ofs < length (ser_file xs))%nat ->
+  exists x rest, owner xs ofs = Some x /\
+    parse_ref (skipn (search_start_of_record (ser_file xs) ofs) (ser_file xs)) = Some (fst x, rest) /\
+    key_at (ser_file xs) name ofs = (bytes_cmp (r_name (fst x)) name, false).
+Proof. exact key_at_owner. Qed.
+
+(* MAIN: on every well-formed text whose names strictly ascend, for every wanted name, the byte-level
+   binary search returns exactly what the linear scan returns: that record, or none; no error *)
+Theorem find_is_linear_scan : forall xs name, wf_file xs -> strictly_sorted (map fst xs) ->
+  try_find_full_name (ser_file xs) name = Ok (find_first name (map fst xs)).
+Proof. exact L_find_is_linear_scan. Qed.
+
+(* with repeated names (order still ascending) the lookup still finds a record of that name that is
+   in the file, and finds none only if there is none *)
+Theorem find_sorted_with_duplicates : forall xs name, wf_file xs -> weakly_sorted (map fst xs) ->
+  exists res, try_find_full_name (ser_file xs) name = Ok res /\
+    match res with
+    | Some r => In r (map fst xs) /\ r_name r = name
+    | None => forall r, In r (map fst xs) -> r_name r <> name
+    end.
+Proof. exact L_find_sorted. Qed.
+
+(* for ANY bytes whatsoever: a record returned by the lookup has the wanted name and is what the
+   decoder reads at the start of some line of the buffer — never a wrong record *)
+Theorem unparseable_is_error_never_wrong_record : forall a name r,
+  try_find_full_name a name = Ok (Some r) ->
+  r_name r = name /\ exists s rest, line_start a s /\ parse_ref (skipn s a) = Some (r, rest).
+Proof. exact L_no_wrong_record. Qed.
+
+(* for ANY bytes: the lookup neither panics nor runs out of the model's fuel *)
+Theorem find_total : forall a name,
+  try_find_full_name a name <> Panic /\ try_find_full_name a name <> OutOfFuel /\
+  try_find_full_name a name <> Err EName.
+Proof. exact L_find_total. Qed.
+
+(* non-vacuity: a CRLF/LF mixed file with a peeled line and names that are prefixes of each other *)
+Definition ex_h (c : byte) : bytes := repeat c 40.
+Definition ex_file : list frec :=
+  [ (mk_pref (bs "refs/heads/a") (ex_h x31) (Some (ex_h x32)), (true, false));
+    (mk_pref (bs "refs/heads/a-b") (ex_h x33) None, (false, false));
+    (mk_pref (bs "refs/heads/a/b") (ex_h x34) (Some (ex_h x35)), (true, true)) ].
+Example ex_file_wf_sorted : wf_file ex_file /\ strictly_sorted (map fst ex_file).
+Proof.
+  split.
+  - repeat constructor.
+  - repeat constructor.
+Qed.
+Example ex_lookup :
+  try_find_full_name (ser_file ex_file) (bs "refs/heads/a-b") = Ok (Some (mk_pref (bs "refs/heads/a-b") (ex_h x33) None))
+  /\ try_find_full_name (ser_file ex_file) (bs "refs/heads/a-") = Ok None
+  /\ try_find_full_name (bs "x") (bs "refs/heads/a") = Err EParse.
+Proof. repeat split. Qed.
